@@ -231,8 +231,11 @@ class Check:
             if len(self.nontrivial) < min_nontrivial:
                 raise HarnessError("vacuous exploration: only %d non-trivial cases (floor %d)"
                                    % (len(self.nontrivial), min_nontrivial))
-        os.makedirs(os.path.join(VERIF, "evidence"), exist_ok=True)
-        with open(os.path.join(VERIF, "evidence", self.pid + ".json"), "w") as f:
+        # VERIF_EVIDENCE_DIR: used only by vf/seedtest.py so that runs against seeded
+        # (deliberately broken) trees do not overwrite the committed evidence
+        evdir = os.environ.get("VERIF_EVIDENCE_DIR") or os.path.join(VERIF, "evidence")
+        os.makedirs(evdir, exist_ok=True)
+        with open(os.path.join(evdir, self.pid + ".json"), "w") as f:
             json.dump(ev, f, indent=1, sort_keys=True, default=repr)
             f.write("\n")
         print("%s tier=%s evaluations=%d states=%d transitions=%d nontrivial=%d outcomes=%d "
